@@ -1,1 +1,54 @@
-(* C05 ResidProofs — placeholder, filled below *)
+(* C05 — the residual checker says what it should: [dclose] is the pointwise
+   statement, and the dyadic operations are exact with respect to the integer
+   reading  (m, e) |-> m * 2^e  (shown here for a common exponent). *)
+From Coq Require Import List ZArith Bool Lia.
+From ADV Require Import C05.Resid.
+Import ListNotations.
+Open Scope Z_scope.
+
+Lemma dclose_sound (r c : nat) (P Q : dmat) (tol : dy) :
+  dclose r c P Q tol = true ->
+  forall i j, (i < r)%nat -> (j < c)%nat -> dle (dabs (dsub (dget P i j) (dget Q i j))) tol = true.
+Proof.
+  unfold dclose. intros H i j Hi Hj.
+  rewrite forallb_forall in H. specialize (H i). rewrite forallb_forall in H.
+  apply H; apply in_seq; lia.
+Qed.
+
+(* value of a dyadic pair scaled to a common (smaller) exponent e0: an integer *)
+Definition dval (e0 : Z) (a : dy) : Z := fst a * 2 ^ (snd a - e0).
+
+Lemma dadd_exact (a b : dy) (e0 : Z) :
+  e0 <= snd a -> e0 <= snd b -> dval e0 (dadd a b) = dval e0 a + dval e0 b.
+Proof.
+  destruct a as [m1 e1], b as [m2 e2]. unfold dval, dadd. simpl. intros H1 H2.
+  destruct (e1 <=? e2) eqn:E; simpl.
+  - apply Z.leb_le in E. rewrite Z.shiftl_mul_pow2 by lia.
+    rewrite Z.mul_add_distr_r. f_equal. rewrite <- Z.mul_assoc. f_equal.
+    rewrite <- Z.pow_add_r by lia. f_equal. lia.
+  - apply Z.leb_gt in E. rewrite Z.shiftl_mul_pow2 by lia.
+    rewrite Z.mul_add_distr_r. f_equal. rewrite <- Z.mul_assoc. f_equal.
+    rewrite <- Z.pow_add_r by lia. f_equal. lia.
+Qed.
+
+Lemma dmul_exact (a b : dy) (e0 e1 : Z) :
+  e0 <= snd a -> e1 <= snd b -> dval (e0 + e1) (dmul a b) = dval e0 a * dval e1 b.
+Proof.
+  destruct a as [m1 ea], b as [m2 eb]. unfold dval, dmul. simpl. intros H1 H2.
+  replace (ea + eb - (e0 + e1)) with ((ea - e0) + (eb - e1)) by lia.
+  rewrite Z.pow_add_r by lia. ring.
+Qed.
+
+Lemma dle_exact (a b : dy) (e0 : Z) :
+  e0 <= snd a -> e0 <= snd b -> (dle a b = true <-> dval e0 a <= dval e0 b).
+Proof.
+  intros H1 H2. unfold dle.
+  assert (E : dval e0 (dsub b a) = dval e0 b - dval e0 a).
+  { unfold dsub. rewrite dadd_exact; auto. unfold dval, dneg. simpl. ring. }
+  rewrite Z.leb_le.
+  assert (Hs : e0 <= snd (dsub b a)).
+  { unfold dsub, dadd, dneg. destruct b as [mb eb], a as [ma ea]. simpl in *. destruct (eb <=? ea); simpl; lia. }
+  unfold dval in E at 1.
+  assert (Hp : 0 < 2 ^ (snd (dsub b a) - e0)) by (apply Z.pow_pos_nonneg; lia).
+  split; intro H; nia.
+Qed.
